@@ -10,7 +10,17 @@ import LokyModel.Wrapper
 * names: `_obj`, `_keep_wrapper`, `c:<i>` (type-level), `u:<i>` (any other)
 
 → `layers=<outer→inner kind:keep/…|-> callable=<0|1> call=<tok|TypeError> gen=<n|-> reads=<r,…|->`
-  after `n` round trips, with `rt` = "same behaviour, gen+1". -/
+  after `n` round trips, with `rt` = "same behaviour, gen+1".
+
+Histories on ONE wrapper object (a session; `hnew` starts a new one, the other `h…` lines need one):
+
+    hnew <callable> <calltok> <track> <attrs> <layers> <reads>   build the live wrapper; observe it
+    hmut <callable> <calltok> <attrs>          the wrapped object of the live wrapper is now in this state; observe the live wrapper
+    hpickle live|<j>                           pickle the live wrapper / the j-th received copy, receive the copy; observe the new copy
+    hobs live|<j>                              observe the live wrapper / the j-th received copy
+    hcmut <j> <callable> <calltok> <attrs>     the object inside the j-th received copy is now in this state; observe that copy
+
+each answered by one observation line (same format), computed by `hstep` of the model. -/
 open LokyModel.Wrapper
 
 def parseName (s : String) : Option Name :=
@@ -79,11 +89,81 @@ def handle (ws : List String) : String :=
     | _, _, _, _, _ => "bad-op"
   | _ => "bad-op"
 
-partial def loop (h : IO.FS.Stream) (out : IO.FS.Stream) : IO Unit := do
+/-- session of a history: the model's `Session`, whether `gen` is tracked, the names to read -/
+structure HState where
+  sess : Session
+  track : Bool
+  reads : List Name
+
+def rtGen : Obj → Obj := fun o => { o with gen := o.gen + 1 }
+
+def observeVal (st : HState) (v : Val) : String :=
+  let call := match callV v 0 with | some r => toString r | none => "TypeError"
+  let gen := if st.track then toString (core v).gen else "-"
+  let rs := st.reads.map (fun a => showAttr (getattr v a))
+  s!"layers={dash (showLayers v) "/"} callable={b2s (isCallable v)} call={call} gen={gen} reads={dash rs ","}"
+
+/-- the new state of an object: callability, call token and attributes replaced, the ghost `gen` kept -/
+def setState (c : Bool) (tok : Nat) (attrs : List (Name × Nat)) : Obj → Obj :=
+  fun o => { o with callable := c, attr := fun a => (attrs.find? (·.1 == a)).map (·.2), call := fun _ => tok }
+
+def parseSrc (s : String) : Option (Option Nat) :=
+  if s == "live" then some none else s.toNat?.map some
+
+def parseBit (s : String) : Option Bool :=
+  if s == "0" then some false else if s == "1" then some true else none
+
+/-- one history line: new session state and the answer -/
+def handleH (st? : Option HState) (ws : List String) : Option HState × String :=
+  match ws with
+  | ["hnew", c, tok, track, attrs, layers, reads] =>
+    match parseBit c, tok.toNat?, parseBit track, parseList "/" parseAttr attrs, parseList "," parseLayer layers,
+          parseList "," parseName reads with
+    | some c, some tok, some track, some attrs, some layers, some reads =>
+      let o : Obj := ⟨c, fun a => (attrs.find? (·.1 == a)).map (·.2), fun _ => tok, 0⟩
+      let st : HState := ⟨⟨layers.foldl applyLayer (.raw o), []⟩, track, reads⟩
+      (some st, observeVal st st.sess.live)
+    | _, _, _, _, _, _ => (st?, "bad-op")
+  | ["hmut", c, tok, attrs] =>
+    match st?, parseBit c, tok.toNat?, parseList "/" parseAttr attrs with
+    | some st, some c, some tok, some attrs =>
+      let st := { st with sess := hstep rtGen st.sess (.mutate (setState c tok attrs)) }
+      (some st, observeVal st st.sess.live)
+    | _, _, _, _ => (st?, "bad-op")
+  | ["hpickle", src] =>
+    match st?, parseSrc src with
+    | some st, some src =>
+      let s' := hstep rtGen st.sess (.pickle src)
+      if s'.got.length == st.sess.got.length + 1 then
+        let st := { st with sess := s' }
+        match s'.got.getLast? with
+        | some c => (some st, observeVal st c)
+        | none => (st?, "bad-op")
+      else (st?, "bad-op")
+    | _, _ => (st?, "bad-op")
+  | ["hobs", src] =>
+    match st?, parseSrc src with
+    | some st, some src =>
+      match srcVal st.sess src with
+      | some v => (st?, observeVal st v)
+      | none => (st?, "bad-op")
+    | _, _ => (st?, "bad-op")
+  | ["hcmut", j, c, tok, attrs] =>
+    match st?, j.toNat?, parseBit c, tok.toNat?, parseList "/" parseAttr attrs with
+    | some st, some j, some c, some tok, some attrs =>
+      let st := { st with sess := hstep rtGen st.sess (.mutateCopy j (setState c tok attrs)) }
+      match st.sess.got[j]? with
+      | some v => (some st, observeVal st v)
+      | none => (st?, "bad-op")
+    | _, _, _, _, _ => (st?, "bad-op")
+  | _ => (st?, handle ws)
+
+partial def loop (h : IO.FS.Stream) (out : IO.FS.Stream) (st? : Option HState) : IO Unit := do
   let line ← h.getLine
   if line.isEmpty then return ()
-  out.putStrLn (handle ((line.trimAscii.toString.splitOn " ").filter (· ≠ "")))
-  loop h out
+  let (st', ans) := handleH st? ((line.trimAscii.toString.splitOn " ").filter (· ≠ ""))
+  out.putStrLn ans
+  loop h out st'
 
 def main : IO Unit := do
-  loop (← IO.getStdin) (← IO.getStdout)
+  loop (← IO.getStdin) (← IO.getStdout) none
